@@ -188,7 +188,7 @@ def checkPortParent(port, obj:Logic):
 def checkPort(port):
     parent = port.parent # parent logic
     
-    if (not(port in parent.inPorts or port in parent.outPorts)):
+    if (not(port in parent.inPorts or port in parent.outPorts or port in parent.inOutPorts)):
         raise Exception('ERROR: {} not port of parent {}'.format(port.name, parent.getFullPath()) )
     
 def checkIntegrity(obj:Logic):
